@@ -18,7 +18,8 @@ func presenceProbe(txn *column.Txn, d ColDesc) func() bool {
 		return func() bool { _, ok := a.Get(); return ok }
 	case "key":
 		a := txn.Key()
-		return func() bool { _, ok := a.Get(); return ok }
+		// the key of a filler row ("f<n>") does not make it a row with values
+		return func() bool { v, ok := a.Get(); return ok && !(len(v) > 1 && v[0] == 'f') }
 	case "record", "recordvar":
 		a := txn.Record(name)
 		return func() bool { _, ok := a.Get(); return ok }
